@@ -8,6 +8,7 @@ with the independent grammar of ``rvmon.gwl``.
 from __future__ import annotations
 
 import itertools
+import zlib
 from fractions import Fraction
 
 from .. import gwl
@@ -318,6 +319,20 @@ def _run_ad(ctx, case):
             ctx.count("worklist_with_earlier_selection")
         except Exception:
             ctx.count("preamble_refused")
+        n_pre = len(wl)
+    if isinstance(tip, list) and tip_arg is tip and not case.get("omit_tip") and zlib.crc32(repr((ep, case["tip"])).encode()) % 4 == 0:
+        # the caller keeps ONE list object for its selection: it was used a moment ago with other members (same or
+        # another worklist) and has been edited in place since
+        held = [2] if (kind != "invalid" and mask == 1) else [1]
+        other_wl = wl if zlib.crc32(repr(case["tip"]).encode()) % 8 < 4 else _worklist(dev)
+        try:
+            other_wl.aspirate_well("q", 1, 5.0, tip=held)
+            ctx.count("selection_list_object_reused_after_editing_in_place")
+        except Exception:
+            ctx.count("preamble_refused")
+        held.clear()
+        held.extend(tip)
+        tip_arg = held
         n_pre = len(wl)
     tkw = {} if case.get("omit_tip") else {"tip": tip_arg}
     if case.get("omit_tip"):
